@@ -105,6 +105,15 @@ func genPointSet(r *vlib.R, edge bool) data.Points {
 		t := c01Str(r)
 		ids = append(ids, ident{t, ""}, ident{t, "0"}) // same identity twice: versions are shared below
 	}
+	if r.Chance(0.5) {
+		// type/key pairs that coincide once joined with some separator (whatever an index or cache might use)
+		sep := []string{":", "|", "/", ".", "-", "_", " ", ",", ";", "\t", "\x1f", "=", "#", "+"}[r.Intn(14)]
+		a, b, cc := r.Ident(1+r.Intn(2)), r.Ident(1+r.Intn(2)), r.Ident(1+r.Intn(2))
+		ids = append(ids, ident{a + sep + b, cc}, ident{a, b + sep + cc})
+		if r.Chance(0.5) {
+			ids = append(ids, ident{a + sep + b, ""}, ident{a, b + sep + "0"})
+		}
+	}
 	for len(ids) < nID {
 		ids = append(ids, ident{c01Str(r), c01Str(r)})
 	}
